@@ -48,6 +48,9 @@ def parseOp? : String → Option Op
   | "S" => some .spatialCounts | "M" => some .magnitudeCounts
   | "N" => some .numberTest | "TS" => some .spatialTest | "TM" => some .magnitudeTest
   | "TP" => some .pseudolikelihoodTest | "TR" => some .resampledMagnitudeTest | "TL" => some .mllMagnitudeTest
+  -- MLL_magnitude_test(full_calculation=True): the pooled magnitudes are gathered during the same first pass
+  -- (catalog_evaluations.py:568-571), so its use of the forecast is that of the default calculation
+  | "TLF" => some .mllMagnitudeTest
   | _ => none
 
 def showEv (e : Ev) : String := s!"{if e.keep then 1 else 0}:{e.cell}"
@@ -138,6 +141,19 @@ def handle : List String → Option String
         | some st => "|".intercalate ((run st ops).map showObs)
         | none => "bad-op"
       | _, _, _, _, _ => "bad-op")
+  -- c13_shared <ncat|none> <af> <nBins> <nMag> <catalogs> <w:op,w:op,…> : two in-memory forecasts over the same
+  --   catalog objects, operations interleaved (w = 0 / 1)
+  | ["c13_shared", a, af, nb, nm, cats, wops] => some (
+      let parseWOp (s : String) : Option (Bool × Op) :=
+        match s.splitOn ":" with
+        | [w, o] => (parseOp? o).bind (fun op => if w = "0" then some (false, op) else if w = "1" then some (true, op) else none)
+        | _ => none
+      match parseCats? cats, parseList? parseWOp wops, nb.toNat?, nm.toNat? with
+      | some cats, some ops, some nb, some nm =>
+        match mkState? "list" a (af = "1") nb nm cats with
+        | some st => "|".intercalate ((runShared st st ops).map showObs)
+        | none => "bad-op"
+      | _, _, _, _ => "bad-op")
   -- c13_seq <af> <cfg> <raw catalogs> : the code's filter sequence on each raw catalog (number of events left, and
   --   whether it agrees with filtering by the conjunction)
   | ["c13_seq", af, cfg, cats] => some (
